@@ -27,6 +27,8 @@ type runner func(vec map[string]interface{}) map[string]interface{}
 
 var families = map[string]runner{}
 
+var onePerProcess = map[string]bool{"pipe": true}
+
 const callDeadline = 20 * time.Second
 
 func cmdRun(args []string) {
@@ -101,7 +103,13 @@ func superviseChunk(fam, in string, lo, hi int, vecs []map[string]interface{}) [
 	var lines [][]byte
 	next := lo
 	for next < hi {
-		cmd := exec.Command(os.Args[0], "worker", fam, in, strconv.Itoa(next), strconv.Itoa(hi))
+		// families whose runs may leave goroutines behind that still fire hooks (an error run returns while its
+		// stages are alive) get a fresh process per vector, so that no event leaks into the next vector's trace
+		upto := hi
+		if onePerProcess[fam] {
+			upto = next + 1
+		}
+		cmd := exec.Command(os.Args[0], "worker", fam, in, strconv.Itoa(next), strconv.Itoa(upto))
 		cmd.Env = os.Environ()
 		var stderr bytes.Buffer
 		cmd.Stderr = &stderr
@@ -129,7 +137,7 @@ func superviseChunk(fam, in string, lo, hi int, vecs []map[string]interface{}) [
 				}
 			}
 		}
-		if next < hi {
+		if next < upto {
 			// the worker died while vector `next` was in flight.  It may have been killed by a
 			// goroutine leaked by an earlier vector, so the culprit is re-run alone first.
 			if b := runAlone(fam, in, next); b != nil {
